@@ -22,9 +22,11 @@
  * the same reference.  Reference = hashlib table generated at check time (expected.h); Streebog =
  * ref_streebog.c.
  *
- * H_LEVEL: 0 quick   : pattern 0 L = 2 blocks+1, patterns 1-3 L = 1 block+1, alignments {0,1,3,4,8,31,63}
- *          1 reduced : pattern 0 L = 4 blocks+1, patterns 1-3 L = 2 blocks+1, same 7 alignments
- *          2 full    : every pattern L = 4 blocks+1; pattern 0 with all alignments 0..63, 1-3 with the 7
+ * H_LEVEL: 0 quick   : pattern 0: L = 2 blocks+1, alignments {0,1,3,4,8,31,63}; patterns 1-3: L = 1 block+1, {0,1,31}
+ *          1 reduced : pattern 0: L = 3 blocks+1, the same 7 alignments;      patterns 1-3: L = 2 blocks+1, {0,1,31}
+ *          2 full    : every pattern L = 4 blocks+1; pattern 0 with all alignments 0..63, patterns 1-3 with the 7
+ * Both poisons are applied for the first H_BOTH (2; level 2: 8) alignments of the list - an aligned and
+ * an unaligned source at every (n, c) - the remaining alignments alternate between the two.
  */
 #include "hcommon.h"
 #include "expected.h"
@@ -32,7 +34,7 @@
 #if H_LEVEL == 0
 static const int lvl_blocks[REF_NPAT] = { 2, 1, 1, 1 };
 #elif H_LEVEL == 1
-static const int lvl_blocks[REF_NPAT] = { 4, 2, 2, 2 };
+static const int lvl_blocks[REF_NPAT] = { 3, 2, 2, 2 };
 #else
 static const int lvl_blocks[REF_NPAT] = { 4, 4, 4, 4 };
 #endif
@@ -61,15 +63,21 @@ aligns_for(int p, const int **al, int *nal) {
 	if (0 == p) {
 		(*al) = h_aligns_all;
 		(*nal) = 64;
-		return;
+	} else {
+		(*al) = h_aligns_sub;
+		(*nal) = 7;
+	}
+#else
+	if (0 == p) {
+		(*al) = h_aligns_sub;
+		(*nal) = 7;
+	} else {
+		(*al) = h_aligns_3;
+		(*nal) = 3;
 	}
 #endif
-	(void)p;
-	(*al) = h_aligns_sub;
-	(*nal) = (int)(sizeof(h_aligns_sub) / sizeof(h_aligns_sub[0]));
 }
 
-static const uint8_t h_poisons[2] = { 0x00, 0xA5 };
 
 int
 main(int argc, char **argv) {
@@ -174,6 +182,8 @@ main(int argc, char **argv) {
 							for (pz = 0; pz < 2; pz ++) {
 								size_t len;
 
+								if (k >= H_BOTH && pz != (k & 1))
+									continue;
 								memcpy(W, S[pz] + n * A->ctx_size, A->ctx_size);
 								A->update(W, src, c);
 								h_transitions ++;
